@@ -217,22 +217,25 @@ impl Canon {
             }
             Seq::Dict(r, def) => {
                 let (p, c) = (Rc::as_ptr(r) as *const u8 as usize, Rc::strong_count(r));
-                let d = match def {
-                    Some(b) => Some(self.obj(b)),
-                    None => None,
-                };
                 self.wrap(p, c, |me| {
-                    let mut ents: Vec<(String, Value, Value)> = r
+                    // entries are ordered by canonical key *before* the values are visited, so that
+                    // sharing ids are assigned in output order (hash iteration order is random)
+                    let mut ents: Vec<(String, Value, &Obj)> = r
                         .iter()
                         .map(|(k, v)| {
                             // keys are canonicalised without sharing annotations
                             let ko = noulith::key_to_obj(k.clone());
                             let kc = Canon::new(me.cap, false).obj(&ko);
-                            (kc.to_string(), kc, me.obj(v))
+                            (kc.to_string(), kc, v)
                         })
                         .collect();
                     ents.sort_by(|a, b| a.0.cmp(&b.0));
-                    let es: Vec<Value> = ents.into_iter().map(|(_, k, v)| json!([k, v])).collect();
+                    let es: Vec<Value> = ents.into_iter().map(|(_, k, v)| json!([k, me.obj(v)])).collect();
+                    // the default is visited after the entries, in output order
+                    let d = match def {
+                        Some(b) => Some(me.obj(b)),
+                        None => None,
+                    };
                     match d {
                         Some(dv) => json!(["d", es, dv]),
                         None => json!(["d", es]),
